@@ -4,7 +4,9 @@ import vlib
 from props.c06 import pairwise, hx
 
 PROP_FILES = ['Properties/C10']
+EXTRA_OBLIGATION_FILES = ['Proofs/AtomWire']
 TRUSTED = [
+    'atomic steps of the hand-written model as GENERATED obligations (Proofs/AtomWire.v, re-proved on every run about coq/Gen/Atomicity.v; in a private re-generated copy under VERIF_EXTRA_OVERLAY): tools/lockscan (go/ast, syntactic types) is trusted to list, per function of internal/{server,multiplex,common,client}, every field access / call / sync/atomic operation with the critical sections (Lock..Unlock / RLock..RUnlock / deferred unlock, mutex identity by name) it lies in, every sync.Pool.Put with the later mentions of the object, and every variable a go statement shares with its spawner (anything it cannot resolve is in atomicity_errors, which must be empty); it does not follow calls (a region is what one function writes between Lock and Unlock), does no alias analysis, treats callbacks as running with no lock held, and counts call sites, not executions (a loop around one call site is invisible)',
     'Coq 8.16.1 kernel incl. vm_compute (no native_compute); every C10 theorem is Closed under the global context',
     'uTLS (BuildHandshakeState) is a BLACK BOX: "structurally valid ClientHello" is exactly as strong as the grammar wf_client_hello of '
     'coq/Model/HelloGrammar.v (one record type 22 version 0x0301, handshake type 1 with consistent uint24 length, legacy_version 0x0303, 32-byte '
